@@ -169,6 +169,7 @@ func init() {
 			{Name: "parallel", Race: true, Run: codecParallel("sam", "samh")},
 			{Name: "histories", Run: codecHistories("sam", "samh")},
 			{Name: "readerzoo", TShards: 4, Run: zooUnit("sam", "samh")},
+			{Name: "exactsizes", QShards: 2, TShards: 4, Run: exactSizeUnit("sam")},
 			firstCallUnit(append(firstCodec("sam"), firstCodec("samh")...)),
 		},
 	})
